@@ -186,11 +186,39 @@ def spec_field_count(ty: Ty) -> int:
 
 
 # ----------------------------------------------------------------------------- witness classes
-_GEN = re.compile(r'^[a-z0-9_]+_\d+$')
+def _flat_fields(ty: Ty):
+    """flattened fields of a pair (unannotated nested pairs inlined) or union (all nested `or` leaves)."""
+    out = []
+
+    def go(t):
+        for a in ((t.left(), t.right()) if t.prim == 'pair' else t.args):
+            if t.prim == 'pair' and a.prim == 'pair' and a.field is None and a.tname is None:
+                go(a)
+            elif t.prim == 'or' and a.prim == 'or':
+                go(a)
+            else:
+                out.append(a)
+    go(ty)
+    return out
 
 
-def _annot_names(ty: Ty):
-    return [t.field or t.tname for t in ty.walk() if (t.field or t.tname)]
+def has_name_collision(ty: Ty) -> bool:
+    """some unnamed field of a pair/or (anywhere in ty) would get the generated name `<prim>_<index>` that another
+    field carries as an annotation (the documented naming scheme of generated names)."""
+    for t in ty.walk():
+        if t.prim not in ('pair', 'or'):
+            continue
+        fields = _flat_fields(t)
+        explicit = {f.field or f.tname for f in fields if (f.field or f.tname)}
+        seen = set()
+        for i, f in enumerate(fields):
+            name = f.field or f.tname
+            if name is None or name in seen:
+                if f'{f.prim}_{i}' in explicit:
+                    return True
+            else:
+                seen.add(name)
+    return False
 
 
 def has_some_none(ty: Ty, v) -> bool:
@@ -212,20 +240,15 @@ def c12_wclass(ty: Ty, v, f: Failure) -> str:
         if inner.prim == 'option' and v[1][0] == 'None':
             return 'option(option):Some(None)'
     if p in ('set', 'map', 'big_map'):
-        if any(_GEN.match(n) for n in _annot_names(ty.args[0])):
-            return f'names:generated-looking-annotation:{p}-key'
+        if has_name_collision(ty.args[0]):
+            return f'names:generated-name-collision:{p}-key'
         w = collection_wclass(ty, v, f.info)
         if w:
             return w
         if 'unhashable' in f.info:
             return f'collection:unhashable-python-key:{skeleton(ty.args[0], 1)}'
-    if p in ('pair', 'or'):
-        names = _annot_names(ty)
-        gen = [n for n in names if _GEN.match(n)]
-        if gen:
-            return f'names:generated-looking-annotation:{p}'
-        if len(set(names)) != len(names):
-            return f'names:duplicate-annotation:{p}'
+    if p in ('pair', 'or') and has_name_collision(ty):
+        return f'names:generated-name-collision:{p}'
     if p == 'ticket':
         return 'ticket:pair-content' if ty.args[0].prim == 'pair' else f'ticket:{skeleton(ty.args[0], 1)}'
     if p == 'timestamp':
